@@ -11,6 +11,18 @@ LEVEL_NOTE = ("Bounded: holds for every input within the bounds listed in eviden
 # id -> (technique, level text, design ref)
 BMC = "bounded model checking (Kani/CBMC + SAT) of the compiled konst code against "
 CLAIMED = {
+    "C01": (BMC + "Kani's built-in memory-safety / overflow / assertion checks on every unsafe-backed public function with fully symbolic arguments, plus explicit 'result inside the argument, valid UTF-8 on char boundaries' assertions",
+            "One harness per unsafe-backed function group (slice getters/splitters and _mut twins for u8, u32, [u8;3], (); array "
+            "conversions and chunks; string slicing, strip/trim/find/split_once with str and char patterns; all string and slice iterator "
+            "items/remainders; char encoding for every char / u32; byte-pattern functions; CStr; MaybeUninit/ManuallyDrop/NonNull/option "
+            "wrappers). CBMC's memory model flags out-of-range offsets and invalid from_raw_parts ranges that run 'fine' natively. Not "
+            "modelled: aliasing models, rustc's const-evaluator-only rules; uninitialised reads are caught as nondeterministic values.",
+            "DESIGN.md#c01"),
+    "C10": (BMC + "the identical std Iterator chain, over a generated typed family of DSL chains (source + adapters + consumer); documented exceptions encoded by reversing the sources",
+            "Programs are enumerated by a typed generator (every adapter x a seeded rotating subset of consumers in the quick tier, the "
+            "full cross product and sampled 2/3-adapter chains in the thorough tier); per program the solver decides every input slice "
+            "<=4, range <=4, take/skip/nth argument and every closure of the mask/xor families, comparing values and addresses with std. "
+            "collect_const! only as constant smoke tests. Open finding: take/skip/zip before a reversing method.", "DESIGN.md#c10"),
     "C02": (BMC + "std slice indexing (slice::get, split_at_checked, <&[T;N]>::try_from, as_chunks), results compared by address and length",
             "For u8, u32, [u8;3] slices up to the stated length and (), every length up to usize::MAX, with every usize index/index pair, "
             "the solver shows the fallible getters equal slice.get(..), the clamping variants return std's sub-slice or the documented "
